@@ -39,11 +39,15 @@ class EvalContext(metaclass=NamespaceableMeta):
             super().__init__({})
 
         def __getitem__(self, key):
-            if key not in self:
-                node = self._cfgobj[key]
-                return self._eval_ctx.evaluate_node(node, self._path + [key])
+            if key in self:
+                ret = super().__getitem__(key)
+                if not isinstance(ret, EvalContext.PartialChild):
+                    return ret
+                # only a placeholder, created when something below "key" was evaluated
+                # through a direct reference - the node itself still has to be evaluated
 
-            return super().__getitem__(key)
+            node = self._cfgobj[key]
+            return self._eval_ctx.evaluate_node(node, self._path + [key])
 
         def __getattr__(self, name):
             #if name not in self:
